@@ -156,7 +156,7 @@ var registry = map[string]*Property{
 		Decided:    "The finite tables of the writers and the readers are inverse of each other: every single-letter escape the text writer spells is mapped back to the same byte by the text reader and the needs-escaping tests cover delimiter, backslash and control characters (TAB-ESCAPE, writer obligations); typed-null spellings written = names the reader dispatches on = the 13 Ion type names (TAB-NULLKW); identifier-shaped text with a non-symbol meaning is quoted when written as a symbol (TAB-KEYWORD); binary type codes, per-code value types, float sizes and typed-null bytes equal the Ion 1.0 tables (TAB-TYPECODE); every value the writers open is closed on each success path, annotation wrappers included (ORD-VALUE); in Finish the version marker precedes the symbol table, which precedes the buffered values (ORD-LSTFIRST); every length the binary writer declares is computed with the codec, and for the operand, that the payload is appended with (TAB-LENPAY); each binary field uses the codec family Ion 1.0 prescribes on the writing and on the reading side (TAB-CODEC); a symbol token's text is never reinterpreted as a '$n' ID nor replaced by the token's source SID when written (OWN-TEXTAUTH).",
 		Necessary:  "A byte escaped as \\X that the reader maps elsewhere, a typed null spelled with another type's name, a reserved word written unquoted, a type code decoded as another type, an unclosed 0xE0 wrapper or a table emitted after its values each change or lose a value named in the property's quantifier.",
 		NotDecided: "payload encodings (ints, floats, decimals, timestamps), xLen = len(appendX), float/decimal/timestamp formatting; each codec's own length function (len(appendX(v)) = xLen(v))",
-		Technique: tabTech + "; CFG/SSA pairing for ORD; " + "codec-family pairing (length function vs append function per operand, by SSA path) and codec tables compared with Ion 1.0" + "; call-graph fixed point and value flow for OWN-TEXTAUTH",
+		Technique:  tabTech + "; CFG/SSA pairing for ORD; " + "codec-family pairing (length function vs append function per operand, by SSA path) and codec tables compared with Ion 1.0" + "; call-graph fixed point and value flow for OWN-TEXTAUTH",
 		DesignRef:  "DESIGN.md §3.4, §3.5, §4 C01",
 		Rules: []Rule{
 			only(rEscape, 18, whatHas("writer:")), rNullKW, rKeyword, rTypecode, rOrdValue, rOrdLstFirst,
@@ -167,7 +167,7 @@ var registry = map[string]*Property{
 		Decided:    "The text reader's finite tables equal the Ion 1.0 text tables: every escape with its code point and digit count, \\u and \\U refused inside clobs (TAB-ESCAPE, reader obligations); the 13 null.<type> names (TAB-NULLKW, reader obligations); every token the tokenizer can hand out at the start of a value has an arm in the reader's value dispatch (TAB-TOKEN, value arms); inside {{ }} no comment-skipping whitespace routine is reachable, so base64 text containing '//' or '/*' decodes (OWN-LOBWS); no comparison treats symbol ID 0 ($0) differently from the positive IDs (TAB-SID0); the timestamp parser separates second precision, nanosecond precision (up to nine digits) and rounding, and valid from invalid offsets, at the indices and values the grammar prescribes (TAB-BOUNDS, text timestamp obligations).",
 		Necessary:  "An escape decoded to another code point, a null.<type> name mapped to another type, or a value-start token without a dispatch arm makes a legal spelling decode to another value or to an error.",
 		NotDecided: "number, string-segmentation, comment/whitespace and timestamp grammar (behaviour of loops over characters); $n handling",
-		Technique: tabTech + "; who-may-call check for the lob whitespace routines; spelling-insensitive boundary extraction for TAB-BOUNDS",
+		Technique:  tabTech + "; who-may-call check for the lob whitespace routines; spelling-insensitive boundary extraction for TAB-BOUNDS",
 		DesignRef:  "DESIGN.md §3.4, §4 C02",
 		Rules: []Rule{
 			only(rEscape, 18, whatHas("reader:")), only(rNullKW, 13, whatHas("reader:")), only(rToken, 14, whatHas("value arm")), rLobWS, rSid0, only(rBounds, 6, funcHas("ParseTimestamp", "computeTimezoneKind", "isIonYear")),
@@ -177,7 +177,7 @@ var registry = map[string]*Property{
 		Decided:    "The binary reader's type-code table, the value type stored for each type code and the accepted float sizes equal the Ion 1.0 tables (TAB-TYPECODE, reader obligations); validateAnnotatedValue special-cases exactly the type codes whose low nibble bitstream.Next does not read as a body length, so a wrapper around true/false or a sorted struct is measured correctly (TAB-NIBBLE); each field is decoded with the primitive Ion 1.0 prescribes (TAB-CODEC, reader obligations); the VarUInt/VarInt accumulators cannot drop high bits and every narrowing in the bitstream and binary reader is in range (NUM-SHIFT, NUM-NARROW, bitstream obligations); bytes handed to the caller never alias the read buffer (OWN-INPUT, Peek obligations).",
 		Necessary:  "A type code decoded as another type, a refused float size, or a wrapper length check that misreads a bool's nibble (finding F13, fixed) rejects or misdecodes a valid encoding.",
 		NotDecided: "VarUInt/VarInt arithmetic, padding, NOP handling, struct ordering, lengths (behavioural); TAB-BUDGET of the design was not built",
-		Technique: tabTech + "; " + "codec-family pairing (length function vs append function per operand, by SSA path) and codec tables compared with Ion 1.0" + "; " + numTech + "; escape walk of bufio.Reader.Peek results",
+		Technique:  tabTech + "; " + "codec-family pairing (length function vs append function per operand, by SSA path) and codec tables compared with Ion 1.0" + "; " + numTech + "; escape walk of bufio.Reader.Peek results",
 		DesignRef:  "DESIGN.md §3.4, §4 C03",
 		Rules: []Rule{
 			only(rTypecode, 30, whatLacks("binaryNulls[")), rNibble,
@@ -189,7 +189,7 @@ var registry = map[string]*Property{
 		Decided:    "Binary typed-null bytes written equal the Ion 1.0 table (TAB-TYPECODE, writer obligations); text typed-null spellings are the 13 Ion type names (TAB-NULLKW, writer obligations); every single-letter escape the text writer spells denotes the written byte in the Ion 1.0 escape table, and the needs-escaping tests of strings, symbols and clobs cover delimiter, backslash, control characters and non-ASCII for clobs (TAB-ESCAPE, writer-vs-spec and predicate obligations); keywords are quoted when written as symbols (TAB-KEYWORD); every opened value/container/annotation wrapper is closed on each success path (ORD-VALUE); version marker before symbol table before values, fixed table before the first value (ORD-LSTFIRST); every declared length is computed with the codec and operand the payload is appended with, across the xLen/appendX and Len/EmitTo sibling pairs too (TAB-LENPAY); each field uses the codec Ion 1.0 prescribes (TAB-CODEC, writer obligations); no value is narrowed out of range on its way into the encoders, in particular no negative symbol ID (NUM-NARROW, writer files); IDs written come from this writer's table by text (OWN-TEXTAUTH, writer obligations).",
 		Necessary:  "Each clause is checked against the specification embedded in the checker, not against this repository's reader: a wrong null byte or name, a raw delimiter, an unquoted keyword, an unclosed wrapper (declared length never patched) or a table after its values is ill-formed or denotes another value under any conforming decoder.",
 		NotDecided: "each codec's own length function (len(appendX(v)) = xLen(v) is arithmetic), separators and number formatting of the text writer",
-		Technique: tabTech + "; CFG/SSA pairing for ORD; " + "codec-family pairing (length function vs append function per operand, by SSA path) and codec tables compared with Ion 1.0" + "; " + numTech,
+		Technique:  tabTech + "; CFG/SSA pairing for ORD; " + "codec-family pairing (length function vs append function per operand, by SSA path) and codec tables compared with Ion 1.0" + "; " + numTech,
 		DesignRef:  "DESIGN.md §3.4, §3.5, §4 C04",
 		Rules: []Rule{
 			only(rTypecode, 13, whatHas("binaryNulls[")), only(rNullKW, 13, whatHas("writer:")), only(rEscape, 20, whatHas("escapes when", "writer-vs-spec:")), rKeyword, rOrdValue, rOrdLstFirst,
@@ -208,7 +208,7 @@ var registry = map[string]*Property{
 		Decided:    "In package ion: a pointer obtained from an accessor that returns (nil, nil) for a typed null is dereferenced only where it is known non-nil, with preconditions inferred through helper calls (NIL-ACC); such a pointer is not passed to a callee that dereferences it unguarded (NIL-ARG); the pointer fields documented nil-if-unknown (SymbolToken.Text/Source, ImportSource) are dereferenced only under a nil test of the same access path (NIL-FIELD); every panicking pop on the reader-side stacks is dominated by a non-emptiness fact (ORD-POPGUARD, reader obligations); on the input side every allocation with a non-constant size is sized by the length of data already in memory or by a value bounded by 2^20 — a declared length never sizes an allocation before the bytes exist (NUM-ALLOC, 2 residual rows); every index into a slice, string or array on the input side (240 sites) is inside the bounds by the loop that produces it, by a dominating comparison with the length of the same object, by the callee's length contract (Peek(n), readN(n)) or by what every call site establishes (NUM-INDEX, 7 residual rows); the same for the bounds of slice expressions in the reader, symbol-table, unmarshal and timestamp files (NUM-SLICE, 3 residual rows); every call on the input side to a module function that panics when an integer expression over its parameters leaves a range (Decimal.ShiftL/upscale ...) establishes that range at the call (OWN-PANICAPI).",
 		Necessary:  "An unguarded dereference of a typed null's nil accessor result, or an unguarded pop, is a panic on an input that exists (null.int, $0, imports:null.symbol — findings F7, F8, F9, all fixed).",
 		NotDecided: "slice bounds inside the text formatters (decimal.go, textutils.go), explicit internal-consistency panics (bitstream.remaining/StepOut: pos <= end is arithmetic), loop termination, recursion depth, memory retained by deeply nested or very long valid input",
-		Technique: "SSA must-dataflow of nil facts keyed by canonical access path, with inferred callee preconditions; " + numTech + " (allocation sizes, index and slice bounds, callee panic ranges evaluated at each call site)",
+		Technique:  "SSA must-dataflow of nil facts keyed by canonical access path, with inferred callee preconditions; " + numTech + " (allocation sizes, index and slice bounds, callee panic ranges evaluated at each call site)",
 		DesignRef:  "DESIGN.md §3.2, §4 C06",
 		Rules: []Rule{
 			{"NIL-ACC", rules.NilAcc(rules.ScopeIon, 20)}, {"NIL-ARG", rules.NilArg(rules.ScopeIon, 0)}, {"NIL-FIELD", rules.NilField(rules.ScopeIon, 8)},
@@ -220,7 +220,7 @@ var registry = map[string]*Property{
 		Decided:    "The Reader error state is absorbing and every effect of a Reader method happens after 'no error yet' was established (ERR-ABSORB-R); an error obtained from the input layer is made sticky before it is returned (ERR-STICKY-R); end of input inside an open binary container is never a nil-error return (ORD-EOFDEPTH); the text reader ends a sequence in the value position only when no annotations are pending (ORD-DANGLE); a negative integer with a zero magnitude is rejected whichever representation the magnitude was decoded into (ORD-NEGZERO); in the reader files no error is discarded (ERR-DROP) and no path from a non-nil error test reaches an exit without consuming the error or returning a definitely non-nil one (ERR-SWAP).",
 		Necessary:  "A Next that continues after an error, an input-layer error that never reaches Err(), a truncated container read as complete (F14, fixed), 'a::' accepted (F15, fixed) or a dropped tokenizer/bitstream error each let malformed input finish with Err()==nil or let Next resume.",
 		NotDecided: "that each grammar violation in the property's catalogue is detected by some check in the tokenizer or bitstream",
-		Technique: ssaTech + "; phi-edge inspection of the negative-zero flag",
+		Technique:  ssaTech + "; phi-edge inspection of the negative-zero flag",
 		DesignRef:  "DESIGN.md §3.1, §3.5, §4 C07",
 		Rules: []Rule{
 			rAbsorbR, rStickyR, rOrdEOFDepth, rOrdDangle, rNegZero,
@@ -231,7 +231,7 @@ var registry = map[string]*Property{
 		Decided:    "Every Reader method exit that refuses a call (returns a fresh *UsageError) is free of side effects on the reader (REFUSE-PURE); every token the tokenizer hands out as an unfinished value has a skip arm (TAB-TOKEN, skip arms); StepIn enters a nesting level only for a non-null container in both implementations (ORD-STEPIN); none of the lob readers and skippers reaches the comment-skipping whitespace routine, so skip and read agree that '/' inside {{ }} is data (OWN-LOBWS).",
 		Necessary:  "A refused StepIn/StepOut/accessor that changes cursor state, or a value kind that cannot be skipped, makes later results depend on the navigation.",
 		NotDecided: "agreement of skip and read on where an arbitrary value ends (finding F17, clob text containing '}', was repaired but no rule would detect its return)",
-		Technique: ssaTech + "; " + tabTech + "; enum value-set and nil-fact dominance at nesting-level pushes; who-may-call check for the lob whitespace routines",
+		Technique:  ssaTech + "; " + tabTech + "; enum value-set and nil-fact dominance at nesting-level pushes; who-may-call check for the lob whitespace routines",
 		DesignRef:  "DESIGN.md §3.1, §3.4, §4 C08",
 		Rules:      []Rule{rRefuse, only(rToken, 13, whatHas("skip arm")), rStepIn, rLobWS},
 	},
@@ -239,7 +239,7 @@ var registry = map[string]*Property{
 		Decided:    "Every insertion into a symbol text index (buildIndex, symbolTableBuilder.Add, Build) happens only when the text is not present yet, with imports consulted before locals, or copies an existing index (ORD-FIRSTWINS); NewSymbolTokenBySID looks an ID up only after 0 <= sid <= MaxID() was established and rejects everything else (ORD-SIDBOUND); a local table resolves text through its imports before its own index on every path (ORD-IMPORTFIRST); Build neither writes to the builder nor hands the builder's own symbols/index storage to the built table (OWN-BUILD); every table object is built with an index that describes exactly the symbols it holds (TAB-INDEXPAIR).",
 		Necessary:  "An index insert that overwrites gives the highest instead of the lowest ID for a text and lets the builder renumber a known symbol; an unchecked ID above MaxID is not rejected.",
 		NotDecided: "the offset arithmetic across imports (processImports, findByIDInImports, Adjust) — numeric; immutability of built tables is decided under C18 (OWN-IMMUT), not here, because a write that keeps the numbering (a lazily built index) does not break this property",
-		Technique: "SSA dominance facts keyed by canonical access path (comma-ok lookup / FindByName result false before the map update); CFG reachability between import and local lookups; parameter-rooted effect summary and copy-source tracing for Build; symbols/index pair tracing at table literals",
+		Technique:  "SSA dominance facts keyed by canonical access path (comma-ok lookup / FindByName result false before the map update); CFG reachability between import and local lookups; parameter-rooted effect summary and copy-source tracing for Build; symbols/index pair tracing at table literals",
 		DesignRef:  "DESIGN.md §3.5, §4 C09",
 		Rules:      []Rule{rOrdFirstWins, rOrdSidBound, rImpFirst, rBuild, rIdxPair},
 	},
@@ -247,7 +247,7 @@ var registry = map[string]*Property{
 		Decided:    "Every successful path of binaryReader.readBVM resets the context to the system table (ORD-BVMRESET); once a top-level struct is recognised as $ion_symbol_table every exit reports 'not a user value' or an error (ORD-LSTHIDE); the symbol table reader dereferences accessor results only under the non-null precondition, so typed nulls in imports/name/version/max_id/symbols do not crash it (NIL-ACC scoped to readlocalsymboltable.go); every Reader field that can hold a resolved token is reset per value or after every assignment of the current table, so no token outlives the table it was resolved in (OWN-TOKCACHE); an import's declared max_id counts as declared from 0 upwards — only a negative or absent one falls back to the catalog (TAB-BOUNDS, readImport).",
 		Necessary:  "A version marker that keeps the old table, a table struct surfacing as a user value, or a panic on a typed null in a table slot (F8, fixed) each break resolution against the table in force.",
 		NotDecided: "append/replace semantics, catalog fallback order, max_id trimming/padding",
-		Technique: "SSA must-pass-through and nil-fact dataflow; forward path search from every assignment of the current table to an exit (token-holding fields); boundary extraction",
+		Technique:  "SSA must-pass-through and nil-fact dataflow; forward path search from every assignment of the current table to an exit (token-holding fields); boundary extraction",
 		DesignRef:  "DESIGN.md §3.2, §3.5, §4 C10",
 		Rules:      []Rule{rOrdBVMReset, rOrdLstHide, {"NIL-ACC", rules.NilAcc(rules.ScopeLST, 4)}, rTokCache, only(rBounds, 1, funcHas("readImport"))},
 	},
@@ -255,7 +255,7 @@ var registry = map[string]*Property{
 		Decided:    "The field names and the annotation the symbol table writer emits are exactly those the symbol table reader dispatches on, max_id included (TAB-LSTFIELDS); the fixed/imported table is written before the first value (ORD-LSTFIRST); the builder consults imports and existing entries before defining a local symbol (ORD-FIRSTWINS); token text reaches the table lookup as it is — never through the '$n' interpretation, which would bypass a fixed table's 'not defined' error and emit an arbitrary ID (OWN-TEXTAUTH, binary writer obligations).",
 		Necessary:  "An import declaration the reader does not understand leaves every imported ID unresolvable; a table after the first value or a local redefinition of imported text emits IDs the stream does not (minimally) define.",
 		NotDecided: "ID arithmetic; that unknown text under a fixed table is an error (OWN-FIXEDLST not built)",
-		Technique: tabTech + "; SSA dominance for ORD; call-graph fixed point and value flow for OWN-TEXTAUTH; copy-source and path search rules for the builder and the writer",
+		Technique:  tabTech + "; SSA dominance for ORD; call-graph fixed point and value flow for OWN-TEXTAUTH; copy-source and path search rules for the builder and the writer",
 		DesignRef:  "DESIGN.md §3.4, §3.5, §4 C11",
 		Rules:      []Rule{rLstFields, rOrdLstFirst, rOrdFirstWins, only(rTextAuth, 2, posHas("ion/binarywriter.go")), rImpFirst, rBuild, rWrCache, rIdxPair},
 	},
@@ -263,7 +263,7 @@ var registry = map[string]*Property{
 		Decided:    "For all 24 error-returning Writer methods on each writer implementation: the sticky error is tested before any effect on the writer (ERR-GUARD-W) and every returned error is the sticky error (ERR-STICKY-W); every value opened is closed on each success path (ORD-VALUE); Finish re-arms the binary writer before every success exit (ORD-REARM); every panicking pop on the writer-side stacks is dominated by a non-emptiness fact (ORD-POPGUARD, writer obligations); nothing in the writer implementation reachable from the Writer methods consults a time-, random- or schedule-dependent source and every map range there has an order-insensitive body (OWN-NONDET, functions outside marshal.go, fields.go and the command); an exit that refuses a call with an unrecorded UsageError (Finish away from the top level) is reached before any effect on the writer (REFUSE-PURE-W); closing a container reaches clear() before every exit that may succeed, so a pending field name or annotation never leaks to a later value (ORD-ENDCLEAR); the binary writer keeps no text-to-ID memory that outlives its symbol table builder (OWN-WRCACHE).",
 		Necessary:  "A method that works after an earlier error or returns an error it does not remember lets a later Finish return nil (F1–F3, fixed); an unclosed value or a Finish that is not re-armed emits an invalid stream on a nil Finish (F4, fixed); an unguarded pop panics on an illegal call sequence; a nondeterminism source makes the same calls yield different bytes.",
 		NotDecided: "validity of the emitted stream beyond pairing (see C04), nil pointer arguments, WriteNullType with an out-of-range Type (finding F23, TAB-INDEX not built)",
-		Technique: ssaTech + "; forward path search to exits for ORD-ENDCLEAR / OWN-WRCACHE / REFUSE-PURE-W",
+		Technique:  ssaTech + "; forward path search to exits for ORD-ENDCLEAR / OWN-WRCACHE / REFUSE-PURE-W",
 		DesignRef:  "DESIGN.md §3.1, §3.5, §3.6, §4 C12",
 		Rules: []Rule{
 			rGuardW, rStickyW, rOrdValue, rOrdRearm, only(rOrdPopGuard, 2, funcHas("Writer", "writer")), only(rOwnNondet, 40, posLacks("ion/marshal.go", "ion/fields.go", "cmd/")), rRefuseW, rEndClear, rWrCache,
@@ -301,7 +301,7 @@ var registry = map[string]*Property{
 		Decided:    "Only the determinism clause: MarshalText asks for sorted map keys and with that option encodeMap sorts the keys before emitting any field (ORD-SORTMAP); nothing reachable from Marshal*/Encoder/Writer methods consults a time-, random- or schedule-dependent source, and every map range has an order-insensitive body (OWN-NONDET); the one narrowing on the encode path, int64(v.Uint()), happens only under reflect kinds whose values fit (NUM-NARROW, marshal.go); every struct type without exported fields that the decoder recognises by identity (big.Int, Decimal, Timestamp, time.Time) is recognised by the encoder before the generic field walk (TAB-OPAQUE); every reflect.Kind the decoder accepts as a target is dispatched on by the encoder (TAB-KIND); a Go string marshalled as a symbol is written by its text, never through the '$n'-interpreting string API (OWN-TEXTAUTH, marshal obligations); no append in the field, marshal and unmarshal code keeps results of repeated appends to one fixed base slice, so field index paths of siblings never share a backing array (OWN-APPENDALIAS).",
 		Necessary:  "Go's map iteration order is random, so an unsorted map encode or any other nondeterminism source makes MarshalText output differ between runs for the same value.",
 		NotDecided: "value equality after the round trip: field paths through embedded structs, name matching, map keys, pointer/nil handling — behaviour of reflection over caller types",
-		Technique: "SSA dominance + call-graph reachability from the output API; type-identity and reflect.Kind tables extracted from SSA comparisons; loop/base analysis of append calls; value flow for OWN-TEXTAUTH",
+		Technique:  "SSA dominance + call-graph reachability from the output API; type-identity and reflect.Kind tables extracted from SSA comparisons; loop/base analysis of append calls; value flow for OWN-TEXTAUTH",
 		DesignRef:  "DESIGN.md §3.5, §3.6, §4 C16",
 		Rules:      []Rule{rOrdSortMap, rOwnNondet, only(rNarrow, 1, posHas("ion/marshal.go")), rOpaque, rKind, only(rTextAuth, 1, posHas("ion/marshal.go", "ion/unmarshal.go")), only(rAppAlias, 2, posHas("ion/fields.go", "ion/marshal.go", "ion/unmarshal.go"))},
 	},
@@ -309,7 +309,7 @@ var registry = map[string]*Property{
 		Decided:    "In unmarshal.go: token text and the other nil-if-unknown pointer fields are tested before use (NIL-FIELD); accessor results are dereferenced only under the non-null precondition (NIL-ACC, NIL-ARG); Decoder.Decode/DecodeTo return the reader's error or ErrNoInput, never nil, when Next() reports no value (ORD-NOINPUT); every reflective numeric store is dominated by the matching Overflow test on the same value and operand, every signed-to-unsigned conversion by a sign test, every big.Int extraction by IsUint64 (NUM-REFLECT, NUM-NARROW, NUM-BIG in unmarshal.go).",
 		Necessary:  "A symbol without text ($0) or a typed null reaching an unguarded dereference panics instead of returning an error (F9, fixed); a Decoder that returns nil at the end of the stream never reports ErrNoInput.",
 		NotDecided: "the value × target conversion table, type identity of reflective Set calls (TAB-REFLECTSET not built; finding F10 was repaired), the reader's position after a failed decode",
-		Technique: "SSA must-dataflow of nil facts; path search to exits; branch-fact dominance of Overflow*/IsUint64 tests; " + numTech,
+		Technique:  "SSA must-dataflow of nil facts; path search to exits; branch-fact dominance of Overflow*/IsUint64 tests; " + numTech,
 		DesignRef:  "DESIGN.md §3.2, §3.5, §4 C17",
 		Rules: []Rule{
 			{"NIL-FIELD", rules.NilField(rules.ScopeUnmarshal, 2)}, {"NIL-ACC", rules.NilAcc(rules.ScopeUnmarshal, 10)}, {"NIL-ARG", rules.NilArg(rules.ScopeUnmarshal, 0)}, rOrdNoInput,
@@ -320,7 +320,7 @@ var registry = map[string]*Property{
 		Decided:    "There is no shared mutable state: shared tables, local tables and the catalog are written only while being constructed (OWN-IMMUT); package-level variables and everything reachable from them are written only during package initialisation (OWN-GLOBAL); no method of a shared type hands out an alias of its internal slice or map (OWN-ESCAPE); nothing on the output path consults a schedule- or time-dependent source (OWN-NONDET).",
 		Necessary:  "With nothing written after construction every access to the shared objects is a read, and concurrent reads do not race (Go memory model); any write found by these rules is a write to an object two goroutines can hold.",
 		NotDecided: "thread-safety of reflect, math/big, fmt, strconv internals (assumed); user-supplied io.Reader/io.Writer/Marshaler implementations",
-		Technique: "SSA store/alias roots + call-graph effect summaries; copy-source tracing for Build",
+		Technique:  "SSA store/alias roots + call-graph effect summaries; copy-source tracing for Build",
 		DesignRef:  "DESIGN.md §3.6, §4 C18",
 		Rules:      []Rule{rOwnImmut, rOwnGlobal, rOwnEscape, rOwnNondet, rBuild},
 	},
@@ -328,7 +328,7 @@ var registry = map[string]*Property{
 		Decided:    "In the reader and writer files of package ion no error of a module function, ion interface method or I/O primitive is discarded (ERR-DROP) and no path from a non-nil error test reaches an exit with the error neither consumed nor replaced by a definitely non-nil error (ERR-SWAP); a failed write is sticky in every Writer method (ERR-STICKY-W); a failed read is made sticky before a Reader method returns it (ERR-STICKY-R); the caller's io.Reader is only wrapped in a bufio.Reader and that is used only through complete-or-error primitives (ReadByte, Peek, Discard, io.ReadFull), so no result depends on how a Read was chunked (OWN-INPUT).",
 		Necessary:  "bufio forgets an error once it has returned it, so an I/O error that is dropped, swapped for nil or returned without being stored looks like a clean end of data (F24, F26, fixed) or lets a later Finish return nil (F2, F3, fixed).",
 		NotDecided: "equality of results across chunkings (follows from bufio's contract, trusted), the prefix property of accepted bytes",
-		Technique: ssaTech + "; who-may-call / escape analysis of the input primitives (OWN-INPUT)",
+		Technique:  ssaTech + "; who-may-call / escape analysis of the input primitives (OWN-INPUT)",
 		DesignRef:  "DESIGN.md §3.1, §4 C19",
 		Rules: []Rule{
 			{"ERR-DROP", rules.ErrDrop(rules.ScopeIO, nil, 300)}, {"ERR-SWAP", rules.ErrSwap(rules.ScopeIO, rules.SwapSuppReader, 200)}, rStickyW, rStickyR, rOwnInput,
@@ -338,7 +338,7 @@ var registry = map[string]*Property{
 		Decided:    "In cmd/ion-go: a possibly-nil accessor result (typed null) is dereferenced only where known non-nil and is not passed to a callee that dereferences it unguarded (NIL-ACC, NIL-ARG scoped to the command); the copy loop never extracts 64 bits from a big.Int without IsInt64/IsUint64 and never narrows a number out of range (NUM-BIG, NUM-NARROW scoped to the command); it never hands a token's text to a '$n'-interpreting Writer method (OWN-TEXTAUTH, command obligations); every Writer value method is called only under the reader Type() it writes, every accessor only under the type it reads, every Ion type has a writing arm and typed nulls go to WriteNullType on the IsNull() edge (TAB-COPYLOOP); every map field the command's writers assign into is initialised where the struct is built (NIL-MAP).",
 		Necessary:  "The copy loop reads every scalar through the nil-returning accessors; an unguarded dereference is a panic on null.int and friends (part of F22, fixed).",
 		NotDecided: "output equivalence, event stream well-formedness (which text helper renders which type), reporting of write failures (11 write errors are assigned to a shadowed err and lost), the panic(err) calls in stringify/symbolify/clobify",
-		Technique: "SSA must-dataflow of nil facts with inferred callee preconditions; enum value-set dataflow of the reader Type() at every Reader accessor and Writer method call of the copy loop; branch-fact dominance for big.Int extraction; value flow for OWN-TEXTAUTH",
+		Technique:  "SSA must-dataflow of nil facts with inferred callee preconditions; enum value-set dataflow of the reader Type() at every Reader accessor and Writer method call of the copy loop; branch-fact dominance for big.Int extraction; value flow for OWN-TEXTAUTH",
 		DesignRef:  "DESIGN.md §3.2, §4 C20",
 		Rules:      []Rule{{"NIL-ACC", rules.NilAcc(rules.ScopeCmd, 1)}, {"NIL-ARG", rules.NilArg(rules.ScopeCmd, 1)}, {"NUM-BIG", rules.NumBig(rules.ScopeCmd, 0)}, {"NUM-NARROW", rules.NumNarrow(rules.ScopeCmd, nil, 0)}, only(rTextAuth, 0, posHas("cmd/")), rCopyLoop, {"NIL-MAP", rules.NilMap(rules.ScopeCmd, 1)}},
 	},
